@@ -150,6 +150,13 @@ theorem tieA_iterator_UplinkDUTCommand (data : List Nat) (hlen : data.length < 2
   rw [h]
   exact gRun_tie _ _ _ TieA.FrameUplinkDUTCommand.Q TieA.FrameUplinkDUTCommand.Q_down TieA.FrameUplinkDUTCommand.P_tie _ data false hlen
 
+/-! non-vacuity: a concrete stream through the regenerated iterator (CID and payload octets of every item, `none` = the
+error item; the unread rest and the `errored` flag; budget not exhausted); the length hypothesis holds of it -/
+example : (runFuelOf Gen.MacCmdFnUplinkDUTCommand.MacCommands.next (5 + 2) ⟨[9, 1, 2, 8, 170], false⟩).map
+    (fun r => (r.1.map (fun i => (TieA.FrameUplinkDUTCommand.itemOf i).toOption.map (fun c => (c.1, c.2.2.2))), TieA.FrameUplinkDUTCommand.stOf r.2.1, r.2.2))
+    = some ([some (9, [1, 2]), some (8, [0xAA])], ([], false), false) := by decide
+example : ([9, 1, 2, 8, 170] : List Nat).length < 2 ^ 64 := by decide
+
 #print axioms tieA_parse_one_UplinkDUTCommand
 #print axioms tieA_next_UplinkDUTCommand
 #print axioms tieA_iterator_UplinkDUTCommand
